@@ -37,8 +37,11 @@
 // it), writes ⊆ analyzer writes, and a schema-changing statement must be
 // classified as one (a UsageAdmin entry or a DDL StatementKind).
 //
-// Signatures. When the analyzer does not report the need, the cause is the
-// extractor and the signature is "<KIND> <read|write>@<clause>" (the top-level
+// Signatures. When the analyzer does not report a table that is read, the
+// signature names the edge of ego's parse tree it fails to follow, found by
+// walking the tree by reflection: "read: CaseExpr.Else not in Children()" or
+// "read: UpdateStmt.Set not walked by Tables()". Otherwise, when the analyzer
+// does not report the need, the signature is "<KIND> <read|write>@<clause>" (the top-level
 // clause of the statement text that names the uncovered table: select-list,
 // from, join-on, where, group-by, having, order-by, limit, with, set, values,
 // insert-select, on-conflict, returning, ddl-select, target) or "<KIND> ddl".
@@ -83,6 +86,7 @@ import (
 
 	"github.com/tucats/ego/internal/server/tables/database"
 	"github.com/tucats/ego/internal/sqlparse"
+	"github.com/tucats/ego/internal/sqlparse/ast"
 	"github.com/tucats/ego/verif/sqlgen"
 	"github.com/tucats/ego/verif/sqlitex"
 	"github.com/tucats/ego/verif/srvfix"
@@ -115,6 +119,9 @@ type Case struct {
 	DSNAdmin bool     `json:"dsn_admin"`
 	// GrantMode is the generator's label for how Grants was drawn.
 	GrantMode string `json:"grant_mode,omitempty"`
+	// Expect (route "pgunit" only): tables the statement, parsed in the
+	// PostgreSQL dialect, must be reported to read.
+	Expect []string `json:"expect,omitempty"`
 }
 
 var (
@@ -588,6 +595,7 @@ func (e *env) covered(n need, sh *shape, grants map[string]bool, dsnAdmin bool) 
 // ------------------------------------------------------------- unit-level twin
 
 type twin struct {
+	stmt   ast.Statement
 	parsed bool
 	perr   string
 	kind   string
@@ -609,14 +617,15 @@ func baseLower(name string) string {
 
 // unitTwin checks that sqlparse's Tables() covers the EXPLAIN ground truth of
 // text.
-func (e *env) unitTwin(text string, tr *truth) twin {
+func (e *env) unitTwin(text string, tr *truth, dialect int) twin {
 	var tw twin
-	p, err := sqlparse.New(text, sqlparse.SQLite)
+	p, err := sqlparse.New(text, dialect)
 	if err != nil {
 		tw.perr = err.Error()
 		return tw
 	}
 	tw.parsed = true
+	tw.stmt = p.Statement()
 	tw.kind = p.StatementKind().String()
 	aR, aW, admin := map[string]bool{}, map[string]bool{}, false
 	var parts []string
@@ -1056,6 +1065,9 @@ func oracle(c Case) vkit.Outcome {
 		grants[g] = true
 	}
 	label := func(s string) { out.Labels = append(out.Labels, s) }
+	if c.Route == "pgunit" {
+		return pgUnit(c)
+	}
 	label("route:" + c.Route)
 	label(fmt.Sprintf("stmts:%d", len(c.Stmts)))
 	if c.GrantMode != "" {
@@ -1064,7 +1076,7 @@ func oracle(c Case) vkit.Outcome {
 
 	// ---- what the statements as written need, and the unit-level twin
 	var unitFail *vkit.Failure
-	unitSigs := map[string]bool{} // every need the analyzer fails to report, by signature
+	unitSigs := map[string]string{} // every need the analyzer fails to report: clause signature -> reported signature
 	uncoveredAsWritten := 0
 	allSelect := true
 	for _, s := range c.Stmts {
@@ -1076,6 +1088,9 @@ func oracle(c Case) vkit.Outcome {
 		for _, f := range s.Feat {
 			if strings.HasPrefix(f, "subq@") {
 				label("feat:" + f)
+			}
+			if strings.HasPrefix(f, "sweep-") {
+				label(f)
 			}
 		}
 		if tr.err != nil {
@@ -1115,23 +1130,85 @@ func oracle(c Case) vkit.Outcome {
 				label("uncovered:" + n.label())
 			}
 		}
-		tw := e.unitTwin(s.SQL, tr)
+		tw := e.unitTwin(s.SQL, tr, sqlparse.SQLite)
+		dialectNote := ""
+		if tw.parsed && tw.fail == nil && tr.err == nil {
+			// the same statement read as PostgreSQL source (same tables, if
+			// it parses there at all)
+			if pg := e.unitTwin(s.SQL, tr, sqlparse.PostgreSQL); pg.parsed && pg.fail != nil {
+				tw, dialectNote = pg, " (PostgreSQL dialect)"
+			}
+		}
+		// which child slots of the tree hold a table this caller may not read
+		if tw.parsed {
+			for _, n := range tr.needs {
+				if n.Mode != "read" || e.covered(n, tr.sh, grants, c.DSNAdmin) {
+					continue
+				}
+				edges, _ := edgesTo(tw.stmt, append([]string{n.Table}, e.viewsOver(n.Table)...))
+				for _, eg := range edges {
+					label("slot:" + tr.sh.kind + " " + eg)
+				}
+				recordSlots(slotJudged, tr.sh.kind, edges)
+			}
+			// tables the caller may not read that the tree names but
+			// SQLite does not read: the statement cannot be prepared (a
+			// subquery in DEFAULT / GENERATED / an index), or preparing it
+			// opens nothing (CREATE VIEW body, CHECK, an eliminated join)
+			var unread []string
+			for _, t := range grantTables {
+				if grants[t+":read"] {
+					continue
+				}
+				needed := false
+				for _, n := range tr.needs {
+					if n.Mode == "read" && (n.Table == t || contains(e.viewTables[t], n.Table)) {
+						needed = true
+					}
+				}
+				if !needed {
+					unread = append(unread, t)
+				}
+			}
+			if edges, _ := edgesTo(tw.stmt, unread); len(edges) > 0 {
+				why := "slot-no-read-by-sqlite:"
+				if tr.err != nil {
+					why = "slot-not-preparable:"
+				}
+				for _, eg := range edges {
+					label(why + tr.sh.kind + " " + eg)
+				}
+				recordSlots(slotNoGround, tr.sh.kind, edges)
+			}
+		}
 		switch {
 		case !tw.parsed:
 			label("unit:parse-error")
 		case tr.err != nil && !tr.schema:
 			label("unit:no-ground-truth")
 		case tw.fail != nil:
-			label("unit:FAIL " + tw.fail.sig())
-			unitSigs[tw.fail.sig()] = true
+			// name the edge of the tree the analyzer does not follow
+			rsig := tw.fail.sig()
+			if tw.fail.Mode == "read" {
+				if _, paths := edgesTo(tw.stmt, append([]string{tw.fail.Table}, e.viewsOver(tw.fail.Table)...)); len(paths) > 0 {
+					// the edge is the root cause whatever the statement kind
+					// and the dialect
+					rsig = "read: " + culprit(paths[0])
+				}
+			}
+			if !strings.HasPrefix(rsig, "read: ") {
+				rsig += dialectNote
+			}
+			label("unit:FAIL " + rsig)
+			unitSigs[tw.fail.sig()] = rsig
 			if unitFail == nil {
 				accs := "EXPLAIN refused the text: " + fmt.Sprint(tr.err)
 				if tr.err == nil {
 					accs = fmt.Sprintf("EXPLAIN: reads=%v writes=%v schema-change=%v", tr.acc.Reads, tr.acc.Writes, tr.schema)
 				}
 				unitFail = &vkit.Failure{
-					Sig:      tw.fail.sig(),
-					Observed: fmt.Sprintf("sqlparse.New(%q).Tables() = %s (kind %s); %s", s.SQL, tw.usage, tw.kind, accs),
+					Sig:      rsig,
+					Observed: fmt.Sprintf("sqlparse.New(%q)%s.Tables() = %s (kind %s); %s", s.SQL, dialectNote, tw.usage, tw.kind, accs),
 					Expected: "Tables() covers the ground truth: missing " + tw.fail.String() + " — neither endpoint can check a table or a schema change the analyzer does not report",
 				}
 			}
@@ -1202,7 +1279,9 @@ func oracle(c Case) vkit.Outcome {
 			label("verdict:ALLOWED-UNCOVERED")
 			n := missing[0]
 			sig := n.sig()
-			if !unitSigs[sig] {
+			if rs, ok := unitSigs[sig]; ok {
+				sig = rs
+			} else {
 				// the analyzer reports the table (or the schema change), yet
 				// the endpoint let it through: the cause is the endpoint's
 				// handling of that usage, whatever the expression position
@@ -1248,6 +1327,49 @@ func oracle(c Case) vkit.Outcome {
 	return out
 }
 
+// pgUnit is the twin for PostgreSQL-only clauses that read tables (DELETE ...
+// USING): no SQLite ground truth exists, the case itself says which tables the
+// clause reads.
+func pgUnit(c Case) vkit.Outcome {
+	out := vkit.Outcome{NonTrivial: true, Labels: []string{"route:pgunit"}}
+	for _, s := range c.Stmts {
+		p, err := sqlparse.New(s.SQL, sqlparse.PostgreSQL)
+		if err != nil {
+			out.Labels = append(out.Labels, "unit:parse-error")
+			continue
+		}
+		kind := p.StatementKind().String()
+		got := map[string]bool{}
+		var parts []string
+		for _, u := range p.Tables() {
+			parts = append(parts, u.Usage.String()+":"+u.Name)
+			if u.Usage == sqlparse.UsageRead {
+				got[baseLower(u.Name)] = true
+			}
+		}
+		for _, want := range c.Expect {
+			edges, paths := edgesTo(p.Statement(), []string{want})
+			for _, eg := range edges {
+				out.Labels = append(out.Labels, "slot:"+kind+" "+eg)
+			}
+			recordSlots(slotJudged, kind, edges)
+			if got[want] {
+				out.Labels = append(out.Labels, "unit:ok")
+				continue
+			}
+			sig := kind + " read (PostgreSQL dialect)"
+			if len(paths) > 0 {
+				sig = "read: " + culprit(paths[0])
+			}
+			out.Fail = &vkit.Failure{Sig: sig,
+				Observed: fmt.Sprintf("sqlparse.New(%q, PostgreSQL).Tables() = [%s]", s.SQL, strings.Join(parts, " ")),
+				Expected: "a read usage of " + want + ": the statement reads it"}
+			return out
+		}
+	}
+	return out
+}
+
 // --------------------------------------------------------------- generator
 
 var lastKinds = []struct {
@@ -1263,6 +1385,9 @@ func genStmt(t *rapid.T, kinds []sqlgen.Kind) (Stmt, sqlgen.Stmt) {
 }
 
 func gen(t *rapid.T) Case {
+	if rapid.IntRange(0, 9).Draw(t, "family") < 4 {
+		return genSweep(t)
+	}
 	var c Case
 	var weighted []sqlgen.Kind
 	for _, kw := range lastKinds {
@@ -1463,7 +1588,7 @@ func fixed() []Case {
 	}
 	g, adm = except("t3:read")
 	out = append(out, Case{Stmts: []Stmt{{SQL: `SELECT count(*) FROM t3`}}, Route: "txrows", Grants: g, DSNAdmin: adm, GrantMode: "fixed"})
-	return out
+	return append(out, sweepFixed()...)
 }
 
 func TestC15(t *testing.T) {
@@ -1473,7 +1598,7 @@ func TestC15(t *testing.T) {
 	vkit.Run(t, vkit.Spec[Case]{
 		ID:    "C15",
 		Level: "exploration",
-		Rule: "1-3 sqlgen statements (SQLite-executable grammar: SELECT/INSERT/UPDATE/DELETE with subqueries in select list, WHERE, SET, VALUES, ON CONFLICT, RETURNING, joins, CTEs, the view v1; CREATE/DROP/ALTER TABLE, CREATE/DROP INDEX, CREATE/DROP VIEW) x route (@sql POST/PUT string|array, @transaction sql tasks, readrows with SQL) x grant set (all-but-one biased to a grant the statement needs, all-but-two, random, all) for one non-administrator on a restricted SQLite DSN; plus ~120 hand-written statement x missing-grant cases. " +
+		Rule: "1-3 sqlgen statements (SQLite-executable grammar: SELECT/INSERT/UPDATE/DELETE with subqueries in select list, WHERE, SET, VALUES, ON CONFLICT, RETURNING, joins, CTEs, the view v1; CREATE/DROP/ALTER TABLE, CREATE/DROP INDEX, CREATE/DROP VIEW) x route (@sql POST/PUT string|array, @transaction sql tasks, readrows with SQL) x grant set (all-but-one biased to a grant the statement needs, all-but-two, random, all) for one non-administrator on a restricted SQLite DSN; plus ~120 hand-written statement x missing-grant cases; 40% of the generated cases and ~480 enumerated ones come from the slot sweep host(wrap*(leaf(U))): a subquery reading a table U the caller may not read, in every child slot of every expression node kind (52 wrappers), under every clause of every statement kind (54 hosts), in 14 subquery forms; the slots really exercised are measured on ego's parse tree by reflection (labels slot:<KIND> <Type>.<Field>). " +
 			"Non-trivial: a DML statement whose EXPLAIN reads a table other than the one it writes, a SELECT that reads >= 2 tables or reads through the view, or a schema-changing statement. Distinct by statements x route x grant set.",
 		Assumptions: []string{
 			"SQLite's EXPLAIN (modernc.org/sqlite) on a scratch database with the same schema is the ground truth for tables read/written and schema changes; the text EXPLAINed for the server layer is what the handler passed to the driver (hook H5)",
@@ -1484,6 +1609,7 @@ func TestC15(t *testing.T) {
 		Gen:      gen,
 		Oracle:   oracle,
 		Fixed:    fixed,
+		Extra:    slotExtra,
 		Quick:    300,
 		Thorough: 2500,
 	})
@@ -1507,7 +1633,7 @@ func TestExplore(t *testing.T) {
 			}
 			seen[s.SQL] = true
 			tr := e.truthOf(s.SQL, 0)
-			tw := e.unitTwin(s.SQL, tr)
+			tw := e.unitTwin(s.SQL, tr, sqlparse.SQLite)
 			fmt.Printf("%s\n   kind=%q object=%v explainErr=%v", s.SQL, tr.sh.kind, tr.sh.object, tr.err)
 			if tr.acc != nil {
 				fmt.Printf(" R=%v W=%v V=%v schema=%v unk=%v", tr.acc.Reads, tr.acc.Writes, tr.acc.Virtual, tr.acc.SchemaChange, tr.acc.UnknownRoots)
